@@ -577,6 +577,60 @@ def r4_resolver(rule, root=None):
         rule.ok("resolver: all %d fallback results are reached only when the scope does not contain the name" % found["fallback"], file=LIB, line=fn["ln"])
 
 
+def r6_classification_order(rule, root=None):
+    """positional arguments are classified by trying each value type in turn; a type whose conversion also
+    accepts another type's values (Plane takes anything an Axis takes, Tree takes numbers and arrays, Vec3
+    takes a Vec2, Axis takes a Vec3) must be tried *after* that other type, or the narrower reading is
+    never chosen.  The accepts-relation is read from the FromDynamic impls themselves."""
+    fn = A.find_fn(SHAPES, "value_from_dynamic", root=root)
+    tried = []
+    for c in A.find(fn["body"], "Call"):
+        if (A.path_segs(c["func"]) or [None])[-1] == "from_dynamic_with_hint" and c["args"]:
+            segs = A.path_segs(A.strip(c["args"][-1])) or []
+            if len(segs) == 2 and segs[0] == "Value":
+                tried.append((c["ln"], c.get("c", 0), segs[1]))
+    order = [v for _l, _c, v in sorted(tried)]
+    if len(order) < 6:
+        rule.lost("the classification chain of value_from_dynamic (found %s)" % order)
+        return
+    tyname = {"f32": "Float", "Vec2": "Vec2", "Vec3": "Vec3", "Vec4": "Vec4", "Vec<Tree>": "VecTree", "Tree": "Tree", "Axis": "Axis", "Plane": "Plane"}
+    accepts = []
+    for path in (TYPES, TREE, LIB):
+        for f in A.load(path, root)["_fns"]:
+            ow = f.get("_owner") or {}
+            if f["name"] != "from_dynamic" or (ow.get("trait") or "") != "FromDynamic" or f.get("body") is None:
+                continue
+            wide = tyname.get((ow.get("self_ty") or "").replace(" ", ""))
+            params = [A.binding_name(i_["pat"]) for i_ in f["sig"]["inputs"] if isinstance(i_, dict) and "pat" in i_]
+            dyn = params[1] if len(params) > 1 else None
+            for c in A.find(f["body"], "Call"):
+                segs = A.path_segs(c["func"]) or []
+                if not segs or segs[-1] != "from_dynamic" or len(c["args"]) < 2 or (len(segs) < 2 and not c["func"].get("qself")):
+                    continue
+                t_ = A.unparse(c["func"]).replace(" ", "")
+                if c["func"].get("qself"):
+                    t_ = "<%s>::%s" % (c["func"]["qself"].replace(" ", ""), t_)
+                narrow = None
+                for k_, v_ in tyname.items():
+                    if t_ in ("%s::from_dynamic" % k_, "<%s>::from_dynamic" % k_):
+                        narrow = v_
+                a1 = A.strip(c["args"][1])
+                while a1.get("k") == "MethodCall" and a1["method"] == "clone":
+                    a1 = A.strip(a1["recv"])
+                if wide and narrow and narrow != wide and A.ident(a1) == dyn:
+                    accepts.append((wide, narrow, path, c["ln"]))
+    if len(accepts) < 4:
+        rule.lost("the accepts-relation between FromDynamic impls (found %s)" % accepts)
+        return
+    for wide, narrow, path, ln in accepts:
+        if wide not in order or narrow not in order:
+            continue
+        if order.index(narrow) < order.index(wide):
+            rule.ok("%s is tried before %s (whose conversion also accepts it)" % (narrow, wide), file=path, line=ln)
+        else:
+            rule.bad("classify|%s-before-%s" % (wide, narrow), "value_from_dynamic tries %s before %s, but %s::from_dynamic accepts every %s value (%s:%d): a positional %s argument is classified as a %s and the shape's %s parameter is never matched" % (wide, narrow, wide, narrow, path, ln, narrow, wide, narrow), A.where(fn))
+
+
 def r5_registration_order(rule, root=None):
     """Rhai keeps the *last* function registered for a name and parameter list.  The one-argument form of a
     shape whose only field is a list of trees (`union([..])`, `intersection([..])`) is claimed both by the
@@ -617,3 +671,5 @@ def run(ctx):
     ctx.guarded(r, r4_resolver)
     r = ctx.rule("R5", "of two builders with the same call signature the typed one is registered last", 1)
     ctx.guarded(r, r5_registration_order)
+    r = ctx.rule("R6", "positional arguments are classified narrowest type first", 5)
+    ctx.guarded(r, r6_classification_order)
